@@ -24,6 +24,11 @@ def run(tier, seed, repo, focus=None):
                 for blocky in (False, True):
                     scns.append({"det": name, "variant": v, "seed": seed + s, "n": 10, "blocky": blocky,
                                  "decisions": not (name in ("HDDDM", "CDBD") and db == 2)})
+                    if name in ("HDDDM", "CDBD") and not blocky:
+                        # long stationary stretches: later epochs reach their third and later batches
+                        scns.append({"det": name, "variant": v, "seed": seed + s, "n": 18, "blocky": False,
+                                     "levels": [0, 0, 0, 0, 4, 4, 4, 4, 4, 4, -3, -3, -3, -3, -3, -3, -3, -3],
+                                     "decisions": db != 2})
     drivers.run_scenarios(res, "row_order", scns, known)
     scns = []
     for s in range(6 if quick else 30):
